@@ -64,7 +64,7 @@ var c16TextFields = []string{
 type gty struct {
 	Embeds []string `json:"-"` // embedded helper types (timestamps, *Audit): outside the Lean fragment
 	Extra  []string `json:"-"` // further field declarations written verbatim (text-marshalling helper types): outside the Lean fragment
-	K      string   `json:"k"` // basic | ptr | slice | arr | map | strct | time | bytes | iface | named
+	K      string   `json:"k"` // basic | ptr | slice | arr | map | strct | time | text | bytes | iface | named
 	Kind   string   `json:"kind,omitempty"`
 	GoName string   `json:"-"` // spelling of a basic kind (int32, uint8, float32, ...)
 	Elem   *gty     `json:"elem,omitempty"`
@@ -104,6 +104,14 @@ func genGty(r *rng.R, depth int, models []string) *gty {
 	case k == 9:
 		return genStruct(r, depth-1, models)
 	case k == 10:
+		switch r.Intn(6) {
+		case 3:
+			return &gty{K: "text", GoName: "Money"} // MarshalText with a value receiver
+		case 4:
+			return &gty{K: "ptr", Elem: &gty{K: "text", GoName: "Money"}}
+		case 5:
+			return &gty{K: "ptr", Elem: &gty{K: "text", GoName: "Ratio"}} // pointer receiver: only ever used through a pointer
+		}
 		return &gty{K: []string{"time", "bytes", "iface"}[r.Intn(3)]}
 	default:
 		if len(models) > 0 {
@@ -148,6 +156,8 @@ func (t *gty) src() string {
 		return "map[string]" + t.Elem.src()
 	case "time":
 		return "time.Time"
+	case "text":
+		return t.GoName
 	case "bytes":
 		return "[]byte"
 	case "iface":
@@ -389,7 +399,7 @@ func CheckC16(run *ev.Run) {
 		"interface{}, references to other models; json tags with rename, '-', omitempty, ',string', untagged fields) are scanned with codescan AND compiled into a program that fills values by reflection and marshals " +
 		"them; every marshalled document is validated against the scanned definition (go-openapi/validate) and decoded back into the type; the scanned definition is compared with the Lean schemaOf on the same type"
 	run.Trusted = append(run.Trusted, "codescan.Run in-process", "the compiled program (encoding/json of the real types)", "go-openapi/validate as acceptance oracle (strict about null)", "structural projection of schemas (type, items, properties, additionalProperties, $ref)")
-	run.Assume = append(run.Assume, "formats (int32, float, date-time) are compared only through the validator", "oracle gap: strfmt refuses the empty string as base64 (an empty non-nil []byte); such reports are discarded", "embedded structs, named non-struct types and custom marshalers are not generated yet")
+	run.Assume = append(run.Assume, "formats (int32, float, date-time) are compared only through the validator", "oracle gap: strfmt refuses the empty string as base64 (an empty non-nil []byte); such reports are discarded", "embedded structs and text-marshalling helper fields of fixed shape are outside the Lean fragment (validated only); TextMarshaler types as random field / element / map-value types are inside it")
 	for pi := 0; pi < nPkgs; pi++ {
 		models := []string{}
 		types := map[string]*gty{}
@@ -408,6 +418,13 @@ func CheckC16(run *ev.Run) {
 				t.Embeds = []string{"*Audit"}
 			case 4:
 				t.Extra = c16TextFields
+			case 5:
+				// the same shapes INSIDE the Lean fragment: the scanned schema of this model is compared with schemaOf
+				money, ratio := &gty{K: "text", GoName: "Money"}, &gty{K: "text", GoName: "Ratio"}
+				for j, ft := range []*gty{money, {K: "ptr", Elem: money}, {K: "ptr", Elem: ratio}, {K: "slice", Elem: &gty{K: "ptr", Elem: ratio}},
+					{K: "map", Elem: &gty{K: "ptr", Elem: ratio}}, {K: "arr", Elem: money}} {
+					t.Fields = append(t.Fields, gfield{Go: fmt.Sprintf("T%d", j), JSON: fmt.Sprintf("t%d", j), Omitempty: j == 1, Ty: ft})
+				}
 			}
 			types[name] = t
 			fmt.Fprintf(&src, "// %s is a generated model.\n//\n// swagger:model %s\ntype %s %s\n\n", name, name, name, t.src())
